@@ -98,18 +98,30 @@ fn profile_for(suite: &str) -> Profile {
 
 /// find-level suite: model finder on the dump vs the real `find_from` at every boundary and the
 /// real token stream.
-fn case_find(seed: u64, idx: usize, suite: &str, cache: &TableCache, out: &mut String, st: &mut Stats) {
+fn case_find(seed: u64, idx: usize, suite: &str, cache: &TableCache, rcache: &RefCache, out: &mut String, st: &mut Stats) {
     let mut r = Rng::derive(seed, idx as u64);
     let pc = match suite {
         "C01" => ProgCfg { max_modes: 1, max_patterns: 6, lookahead: 0, nullable: true, transitions: false, big_tids: true },
         "C04" | "C05" => ProgCfg { max_modes: 1, max_patterns: 5, lookahead: 55, nullable: true, transitions: false, big_tids: false },
         _ => ProgCfg { max_modes: 2, max_patterns: 5, lookahead: 30, nullable: true, transitions: true, big_tids: true },
     };
-    let spec = cfggen::gen_program(&mut r, &pc);
+    let mut spec = cfggen::gen_program(&mut r, &pc);
+    // C01: a third of the programs goes through `add_patterns` (token type = pattern index)
+    let via_add_patterns = suite == "C01" && r.chance(33);
+    if via_add_patterns {
+        for (i, p) in spec[0].patterns.iter_mut().enumerate() {
+            p.tid = i;
+        }
+        spec[0].name = "INITIAL".to_string();
+    }
     let modes = cfggen::to_modes(&spec);
     st.cases += 1;
     let built = catch_unwind(AssertUnwindSafe(|| {
-        ScannerBuilder::new().add_scanner_modes(&modes).build_uncached()
+        if via_add_patterns {
+            ScannerBuilder::new().add_patterns(spec[0].patterns.iter().map(|p| p.pattern.clone())).build()
+        } else {
+            ScannerBuilder::new().add_scanner_modes(&modes).build_uncached()
+        }
     }));
     let scanner = match built {
         Err(_) => {
@@ -127,11 +139,27 @@ fn case_find(seed: u64, idx: usize, suite: &str, cache: &TableCache, out: &mut S
     };
     let dump = scanner.verif_dump();
     let tables = cache.tables(&scanner, &dump);
-    let _ = writeln!(out, "case {}", idx);
-    let _ = writeln!(out, "expect case {}", idx);
-    let _ = writeln!(out, "# {}", describe(&spec).replace('\n', "\\n"));
-    proto::write_scanner(out, &dump, &tables);
-    out.push_str("wf\nexpect wf 1\n");
+    let mut head = String::new();
+    let _ = writeln!(head, "case {}", idx);
+    let _ = writeln!(head, "expect case {}", idx);
+    let _ = writeln!(head, "# {}{}", if via_add_patterns { "add_patterns " } else { "" }, describe(&spec).replace('\n', "\\n"));
+    proto::write_scanner(&mut head, &dump, &tables);
+    head.push_str("wf\nexpect wf 1\n");
+    if suite == "C01" {
+        // the pattern-level reference and the hypothesis LangEquiv (C02's verified check)
+        if !write_patterns(&mut head, &spec, rcache) {
+            st.count("reference_unavailable", 1);
+            return;
+        }
+        for m in 0..dump.modes.len() {
+            let _ = writeln!(head, "equiv {}", m);
+            head.push_str("expect equiv ok\n");
+        }
+        if via_add_patterns {
+            st.count("built_via_add_patterns", 1);
+        }
+    }
+    out.push_str(&head);
     out.push_str("finder model\n");
     let n_inputs = 6;
     for _ in 0..n_inputs {
@@ -497,7 +525,7 @@ fn main() {
                 let mut idx = t;
                 while idx < n {
                     match suite.as_str() {
-                        "C01" | "C04" | "C05" | "find" => case_find(seed, idx, &suite, &cache, &mut out, &mut st),
+                        "C01" | "C04" | "C05" | "find" => case_find(seed, idx, &suite, &cache, &rcache, &mut out, &mut st),
                         "C02" => case_c02(seed, idx, &cache, &rcache, &mut out, &mut st),
                         "C03" => case_c03(seed, idx, &cache, &mut out, &mut st),
                         _ => case_iter(seed, idx, &suite, &cache, &mut out, &mut st),
